@@ -3,7 +3,9 @@
 Implementation-level oracle (model-free), on real subprocess runs of bin/dippy-hook:
   * the same command / cwd / configuration submitted in each host's own input shape (all Gemini
     tool-name aliases) is decoded - by readers written from docs/hook-systems/*.md - to the same
-    (verdict, reason) by the three hosts;
+    (verdict, reason) by the three hosts; beyond the hand-picked commands, for ~1000 (thorough ~6000) commands: every
+    composition constructor x verdict classes, random compositions, every name of the safe list / wrapper list /
+    handler table in several argument forms (in-process sweep, differences confirmed by real processes);
   * every answer validates against the answering host's key / vocabulary schema;
   * the answering mode is: explicit flag or DIPPY_* variable first (claude > gemini > cursor), else
     the input shape - over all flag subsets and DIPPY_* values;
@@ -138,6 +140,76 @@ def build_cases(sc, tier, rng):
     return groups, singles
 
 
+def command_family(tier, rng):
+    """Commands of every kind the analyser distinguishes: all composition constructors x verdict classes (harness/bashgen.py),
+    random compositions, and every known NAME - safe list, wrapper list, handler table - bare, with an argument, with --help."""
+    from dippy import cli
+    from dippy.core import allowlists as al
+
+    from . import bashgen as bg
+
+    by_cls = {"allow": [bg.Atom(t, "allow") for t in bg.ALLOW_CMDS], "ask": [bg.Atom(t, "ask") for t in bg.ASK_CMDS],
+              "deny": [bg.Atom(t, "deny") for t in bg.DENY_CMDS]}
+    cmds = [p.text for p in bg.systematic(by_cls)]
+    pool, redirs = bg.atoms_cmd(), bg.atoms_redir()
+    for _ in range(250 if tier == "quick" else 4000):
+        cmds.append(bg.rand_prog(rng, rng.randint(1, 3), pool, redirs).text)
+    names = sorted(set(al.SIMPLE_SAFE) | set(al.WRAPPER_COMMANDS) | set(getattr(cli, "KNOWN_HANDLERS", {})))
+    for i, n in enumerate(names):
+        forms = [n, n + " x", n + " --help", n + " -rf x > out.txt", "sudo " + n, n + " | zap"]
+        cmds += forms if tier == "thorough" else [forms[i % len(forms)], forms[(i + 1) % len(forms)]]
+    return list(dict.fromkeys(cmds))
+
+
+def command_sweep(sc, out, tier, rng):
+    """For ALL those commands: the three hosts' own shapes decode to the same (verdict, reason), each envelope conforms - run
+    in-process (harness/hook_sweep_worker.py), every difference re-run as real processes."""
+    import time
+
+    t0 = time.time()
+    wd = sc.proj(None)
+    cmds = command_family(tier, rng)
+    items = []
+    for cmd in cmds:
+        for shape in g.SHAPES:
+            t = json.dumps(g.base_input(shape, cmd, wd))
+            items.append(P.Item(text=t, twin=t, expect="twin", flags=(), env={}, field=shape, value=cmd, label="cmdsweep:" + shape, dims={}))
+    results = P.sweep(sc, items, user_cfg=CFG, workers=1)
+    bad = []
+    for i in range(0, len(items), 3):
+        reads = []
+        for it in items[i:i + 3]:
+            stdout, exc = results[(it.text, (), ())]
+            parsed = H.parse_stdout(stdout.encode("utf-8", "surrogateescape"))
+            d = H.any_decision(parsed[0][1]) if len(parsed) == 1 and parsed[0][0] == "J" else None
+            if d is None or exc:
+                reads.append(("?", stdout[:80], exc))
+            else:
+                errs = H.host_schema_errors(d[0], parsed[0][1])
+                reads.append((d[1], d[2], d[0] == it.field, tuple(errs)))
+        out.evaluations += 1
+        out.count("command_sweep", reads[0][0] if reads[0] else "?")
+        if len(set(reads)) != 1 or reads[0][0] == "?" or reads[0][2] is not True or reads[0][3]:
+            bad.append((items[i].value, reads))
+    out.distinct.update(lib.sha(["cmdsweep", c]) for c in cmds)
+    confirmed = 0
+    for cmd, reads in bad[:8]:
+        grp = [H.Case(g.dumps(g.base_input(sh, cmd, wd)), label=f"same:sweep:{sh}", user_cfg=CFG) for sh in g.SHAPES]
+        H.run_cases(sc, grp)
+        vs = [verdict_of(c) for c in grp]
+        rd = [(v[1:] if v[0] in H.MODES else v) for v in vs]
+        schema = [H.host_schema_errors(v[0], H.parse_stdout(c.out)[0][1]) if v[0] in H.MODES else ["no decision"] for v, c in zip(vs, grp)]
+        if any(r != rd[0] for r in rd) or any(schema) or [v[0] for v in vs] != list(g.SHAPES):
+            confirmed += 1
+            out.violations.append({"kind": "hosts", "what": f"the hosts read different answers for {cmd!r}: {rd} (formats {[v[0] for v in vs]}, schema {schema})",
+                                   "members": [H.describe(c, sc) for c in grp], **H.describe(grp[0], sc), "signature_text": f"hosts-differ | sweep | {cmd[:40]}"})
+    if bad and confirmed < min(len(bad), 8):
+        out.disagreements.append({"correspondence": "in-process sweep (hook_sweep_worker.py) <-> bin/dippy-hook process",
+                                  "detail": f"{min(len(bad), 8) - confirmed} cross-host differences did not show in real processes", "command": bad[0][0], "reads": str(bad[0][1])})
+    out.extra["command_sweep"] = {"commands": len(cmds), "in_process_differences": len(bad), "confirmed_by_real_processes": confirmed,
+                                  "seconds": round(time.time() - t0, 1)}
+
+
 def verdict_of(c):
     """(mode of the envelope, verdict, reason) or ('{}',) / ('text', ...) / ('bad', ...)"""
     items = H.parse_stdout(c.out)
@@ -183,6 +255,8 @@ def run(tier, seed, replay=None):
             allc = allc + place_cases
             # near-miss spellings of the mode flags, of the truthy values and of the variable names
             P.run_mode_spellings(sc, out, tier)
+            # "for all commands": composition constructors, random programs, every known command name - three hosts each
+            command_sweep(sc, out, tier, rng)
 
         def bad(what, sig, c, **more):
             out.violations.append({"kind": "hosts", "what": what, **H.describe(c, sc), **more, "signature_text": f"{sig} | {c.label}"})
